@@ -239,7 +239,7 @@ def _body(ctx, d):
     ctx.mark_nontrivial(nt)
 
 
-@CHECK.given("manager_frames", lambda tier: MG.manager_cases(tier), quick=220, thorough=8000)
+@CHECK.given("manager_frames", lambda tier: MG.with_uuid_variants(MG.manager_cases(tier)), quick=220, thorough=8000)
 def manager_frames(ctx, d):
     _body(ctx, d)
 
